@@ -630,6 +630,9 @@ class StyleProperties:
 
     @classmethod
     def has_px(cls, attrib_value: styles.RubyReserveType) -> bool:
+      if attrib_value is styles.SpecialValues.none:
+        return False
+
       return attrib_value.length is not None and attrib_value.length.units == styles.LengthType.Units.px
 
     @classmethod
@@ -971,6 +974,9 @@ class StyleProperties:
 
     @classmethod
     def has_px(cls, attrib_value: styles.TextShadowType) -> bool:
+
+      if attrib_value is styles.SpecialValues.none:
+        return False
 
       for shadow in attrib_value.shadows:
         if shadow.x_offset.units == styles.LengthType.Units.px or \
